@@ -12,11 +12,55 @@ pub fn run(ctx: &mut Ctx) {
     if part.is_empty() || part == "int_exh" { int_exhaustive(ctx); }
     if part.is_empty() || part == "int" { int_random(ctx); }
     if part.is_empty() || part == "raw" { raw_random(ctx); }
-    if part.is_empty() || part == "big" { big(ctx); }
+    if part.is_empty() || part == "big" { big(ctx); families(ctx); }
 }
 
 // Large streams: the default 1 MiB buffer (and 2 MiB, 64 KiB, 4 KiB ones) flushed several times in mid-stream, with long
 // stretches of zeros in the middle and at the end (a writer may treat an all-zero block specially).
+// Several writers open at the same time on names that differ only in their extensions (the columns of one table):
+// each file must be what its own writer was given.
+fn families(ctx: &mut Ctx) {
+    if cfg!(miri) || !ctx.mine(1) { return; }
+    for k in 0..ctx.size(8, 60) {
+        if !ctx.begin_case() { continue; }
+        let mut rng: Rng = ctx.rng(0xC12_F00 + k as u64);
+        let dir = format!("{}/vmon-c12-family-{}-{}-{}", ctx.tmpdir, std::process::id(), ctx.shard, k);
+        if std::fs::create_dir_all(&dir).is_err() { ctx.inconclusive(format!("could not create {}", dir)); continue; }
+        let exts = ["keys", "values", "tmp", "bak", "sds.tmp", "0"];
+        let widths: Vec<usize> = exts.iter().map(|_| 1 + rng.below(64)).collect();
+        let counts: Vec<usize> = exts.iter().map(|_| rng.below(3000)).collect();
+        let values: Vec<Vec<u64>> = counts.iter().map(|c| (0..*c).map(|_| rng.next_u64()).collect()).collect();
+        let names: Vec<String> = exts.iter().map(|e| format!("{}/columns.{}", dir, e)).collect();
+        let r = guard(|| -> Result<Vec<Vec<u8>>, String> {
+            let mut writers: Vec<IntVectorWriter> = Vec::new();
+            for (j, nm) in names.iter().enumerate() { writers.push(IntVectorWriter::with_buf_len(nm, widths[j], 64 + j * 100).map_err(|e| format!("constructor {}: {}", nm, e))?); }
+            // Interleaved pushes, then closed in another order; every other family leaves the last writer to Drop.
+            let longest = counts.iter().copied().max().unwrap_or(0);
+            for i in 0..longest { for (j, w) in writers.iter_mut().enumerate() { if i < counts[j] { w.push(values[j][i]); } } }
+            let n = writers.len();
+            for (j, w) in writers.iter_mut().enumerate().rev() { if !(k % 2 == 0 && j == n - 1) { w.close().map_err(|e| format!("close {}: {}", names[j], e))?; } }
+            drop(writers);
+            names.iter().map(|nm| std::fs::read(nm).map_err(|e| format!("reading {}: {}", nm, e))).collect()
+        });
+        ctx.checks += 1;
+        match r {
+            Err(p) => ctx.violation("int_writer.family!panic", format!("{} writers open at once on columns.{{{}}}: {}", exts.len(), exts.join(","), p)),
+            Ok(Err(e)) => ctx.violation("int_writer.family.err", format!("{} writers open at once on columns.{{{}}}: {}", exts.len(), exts.join(","), e)),
+            Ok(Ok(files)) => {
+                for (j, f) in files.iter().enumerate() {
+                    let mut expected = IntVector::new(widths[j]).unwrap();
+                    for v in values[j].iter() { expected.push(*v); }
+                    ctx.checks += 1;
+                    if *f != ser(&expected) { ctx.violation("int_writer.family.file", format!("file {} written by one of {} writers open at the same time (width {}, {} items) differs from the in-memory serialization ({} vs {} bytes)", names[j], exts.len(), widths[j], counts[j], f.len(), ser(&expected).len())); }
+                }
+            },
+        }
+        let _ = std::fs::remove_dir_all(&dir);
+        ctx.case(hash64(&[7, k as u64, counts[0] as u64]), true);
+        ctx.sample(|| format!("family: {} writers open at once on columns.{{{}}}, interleaved pushes, closed in reverse order", exts.len(), exts.join(",")));
+    }
+}
+
 fn big(ctx: &mut Ctx) {
     if cfg!(miri) { return; }
     // (width, buffer in items, number of items, pattern)
